@@ -1,6 +1,8 @@
 import TenpyModel.C10.P2_MultiFinal
 import TenpyModel.C10.P2_MTMain
 import TenpyModel.C10.P2_Valid
+import TenpyModel.C10.P2_AllFinal
+import TenpyModel.C10.P2_Merged
 /-!
 # C10 — property theorems, part 2: multi-site couplings and exponentially decaying terms
 
@@ -49,6 +51,29 @@ theorem C10_graph_paths_multi {α : Type} [CommSemiring α] [Inhabited α] (L : 
   obtain ⟨hmL, hgwf, hmden⟩ := multi_build L mcalls hm
   exact (multi_fromTerms L _ _ hotL (hwf.len.trans hotL) hmL hgwf).trans (Sym.Equiv.append hoden hmden)
 
+/-- **Two-site couplings converted into a `MultiCouplingTerms`.**  `CouplingModel` converts its two-site
+`CouplingTerms` into a `MultiCouplingTerms` as soon as a multi-site term is present (`self += other`: every entry
+`(i, op_i, op_str, j, op_j, strength)` is re-added by `add_multi_coupling_term(strength, [i, j], [op_i, op_j], [op_str])`
+with `switchLR = 'middle_i'`).  For onsite calls, `add_coupling_term` calls (`0 ≤ i < j < L`) accumulated in a
+`CouplingTerms`, its conversion, and further valid multi-site calls: the MPO graph denotes the sum of all added
+onsite, two-site and multi-site terms. -/
+theorem C10_graph_paths_coupling_merged {α : Type} [CommSemiring α] [Inhabited α] (L : Nat)
+    (ocalls : List (α × Nat × String)) (ccalls : List (α × Int × Int × String × String × String))
+    (mcalls : List (α × List Int × List String × List String × Switch))
+    (ho : ∀ c ∈ ocalls, c.2.1 < L) (hc : ∀ c ∈ ccalls, 0 ≤ c.2.1 ∧ c.2.1 < c.2.2.1 ∧ c.2.2.1 < (L : Int))
+    (hm : ∀ c ∈ mcalls, MultiCallOK L c.2.1 c.2.2.1 c.2.2.2.1 c.2.2.2.2) :
+    Sym.Equiv
+      (denoteGraph (Graph.fromTerms L false
+        [.onsite (ocalls.foldl (fun ot c => ot.add c.1 c.2.1 c.2.2) (OnsiteTerms.empty L)),
+         .multi (mcalls.foldl (fun mt c => mt.add c.1 c.2.1 c.2.2.1 c.2.2.2.1 c.2.2.2.2)
+           ((MultiCouplingTerms.empty L).iaddCoupling
+             (ccalls.foldl (fun ct c => ct.add c.1 c.2.1 c.2.2.1 c.2.2.2.1 c.2.2.2.2.1 c.2.2.2.2.2)
+               (CouplingTerms.empty L))))]))
+      (ocalls.map (fun c => (onsiteStr L c.2.1 c.2.2, c.1)) ++
+       (ccalls.map (fun c => (couplingStr L c.2.1.toNat c.2.2.1.toNat c.2.2.2.1 c.2.2.2.2.2 c.2.2.2.2.1, c.1)) ++
+        mcalls.map (fun c => (multiStr L c.2.1 c.2.2.1 c.2.2.2.1, c.1)))) :=
+  merged_fromTerms L ocalls ccalls mcalls ho hc hm
+
 /-- **`MultiCouplingTerms.to_TermList`.**  For every sequence of valid `add_multi_coupling_term` calls on a finite
 chain none of which triggers the `op_switch != op_str` heuristic wrongly (`SwitchOpOK`: if the switch site is a
 site of the term whose operator is named like the operator string to its left — `""` for the first site — then it
@@ -78,6 +103,45 @@ theorem C10_terms_termlist_multi_counterexample :
     canon 0 (badCalls.map (fun c => (multiStr 5 c.2.1 c.2.2.1 c.2.2.2.1, c.1)))
       = [([(0, "A"), (1, "N"), (2, "s"), (3, "B")], 1)] :=
   multi_termlist_counterexample
+
+/-- **MPO graph paths, exponentially decaying terms (weighted-automaton identity).**  For every
+`ExponentiallyDecayingTerms` container on a finite chain whose terms passed the checks of the adders (`FWF`:
+`subsites`, `subsites_start` strictly ascending inside the chain, `subsites_start` non-empty; centred terms:
+`subsites` strictly ascending, `i ∈ subsites`), the graph built by `add_to_graph` — per term one state
+`(nr, 'exp-decay')` with the self-loop `(op_string, λ_i)` on the sites of `subsites` (`(op_string, 1)` elsewhere),
+opened from `IdL` by `(op_i, λ_i)` on the sites of `subsites_start`, closed into `IdR` by `(op_j, strength)` on the sites
+of `subsites`; two such parts sharing one state for a centred term — denotes the term list
+`to_TermList(cutoff=0, bc='finite')`: `Σ_{i ∈ start} Σ_{j ∈ subsites, j > i} strength · λ_i · Π_{n ∈ subsites, i<n<j} λ_n ·
+op_i ⊗ str … ⊗ op_j` (the sum `Σ_r λ^r` along the self-loop), centred terms included. -/
+theorem C10_graph_paths_exp {α : Type} [CommSemiring α] [Inhabited α] (L : Nat) (e : ExpDecayTerms α)
+    (he : e.L = L) (hwf : e.FWF) :
+    Sym.Equiv (denoteGraph (Graph.fromTerms L false [.expdecay e]))
+      (STermList.denote L (e.toTermListFinite (fun _ => false))) :=
+  exp_fromTerms L e he hwf
+
+/-- **MPO graph = sum of terms, all kinds of terms in one graph** (the statement left open in `Props.lean`): for
+onsite calls, valid `add_multi_coupling_term` calls and a well-formed container of exponentially decaying terms on
+a finite chain, `MPOGraph.from_terms((onsite, multi, exp_decay))` denotes the sum of the onsite terms, the
+multi-site terms and the term list of the exponentially decaying terms.  (Two-site `CouplingTerms` are merged into
+the `MultiCouplingTerms` by `CouplingModel.calc_H_MPO` whenever multi-site terms are present; the key-disjoint
+components — tries vs. `(nr, 'exp-decay')` states — add up by `paths_components`.) -/
+theorem C10_graph_paths_all {α : Type} [CommSemiring α] [Inhabited α] (L : Nat)
+    (ocalls : List (α × Nat × String)) (mcalls : List (α × List Int × List String × List String × Switch))
+    (e : ExpDecayTerms α) (ho : ∀ c ∈ ocalls, c.2.1 < L)
+    (hm : ∀ c ∈ mcalls, MultiCallOK L c.2.1 c.2.2.1 c.2.2.2.1 c.2.2.2.2) (he : e.L = L) (hwf : e.FWF) :
+    Sym.Equiv
+      (denoteGraph (Graph.fromTerms L false
+        [.onsite (ocalls.foldl (fun ot c => ot.add c.1 c.2.1 c.2.2) (OnsiteTerms.empty L)),
+         .multi (mcalls.foldl (fun mt c => mt.add c.1 c.2.1 c.2.2.1 c.2.2.2.1 c.2.2.2.2)
+            (MultiCouplingTerms.empty L)),
+         .expdecay e]))
+      (ocalls.map (fun c => (onsiteStr L c.2.1 c.2.2, c.1)) ++
+       mcalls.map (fun c => (multiStr L c.2.1 c.2.2.1 c.2.2.2.1, c.1)) ++
+       STermList.denote L (e.toTermListFinite (fun _ => false))) := by
+  obtain ⟨hwfo, hotL, hoden⟩ := OnsiteTerms.build_denote L ocalls ho
+  obtain ⟨hmL, hgwf, hmden⟩ := multi_build L mcalls hm
+  exact (all_fromTerms L _ _ e hotL (hwfo.len.trans hotL) hmL hgwf he hwf).trans
+    (Sym.Equiv.append (Sym.Equiv.append hoden hmden) (Sym.Equiv.refl _))
 
 /-! ## non-vacuity -/
 section examples
@@ -122,5 +186,24 @@ example : canon 0 (ex2Calls.map (fun c => (multiStr 5 c.2.1 c.2.2.1 c.2.2.2.1, c
 example : canon 0 (STermList.denote 5 ex2Mt.toTermListS)
     = [([(0, "A"), (1, "s"), (2, "B"), (3, "C")], 9), ([(0, "A"), (1, "s"), (2, "B"), (3, "t"), (4, "D")], 3),
        ([(0, "A"), (1, "s"), (2, "s"), (3, "E")], 5)] := by decide +kernel
+
+/-- a two-site coupling converted into the `MultiCouplingTerms`, followed by the calls of `ex2Calls` -/
+example : canon 0 (denoteGraph (Graph.fromTerms 5 false [.multi
+      (ex2Calls.foldl (fun mt c => mt.add c.1 c.2.1 c.2.2.1 c.2.2.2.1 c.2.2.2.2)
+        ((MultiCouplingTerms.empty 5).iaddCoupling ((CouplingTerms.empty 5 : CouplingTerms Int).add 13 1 4 "X" "Y" "JW")))]))
+    = [([(0, "A"), (1, "s"), (2, "B"), (3, "C")], 9), ([(0, "A"), (1, "s"), (2, "B"), (3, "t"), (4, "D")], 3),
+       ([(0, "A"), (1, "s"), (2, "s"), (3, "E")], 5), ([(1, "X"), (2, "JW"), (3, "JW"), (4, "Y")], 13)] := by
+  decide +kernel
+
+/-- exponentially decaying terms: two plain terms (`subsites_start ≠ subsites` in the second, site-dependent
+`lambda`) and a centred term on 5 sites meet `FWF`; graph and term list have the same 12 strings -/
+example : expExE2.FWF := ⟨by decide, by decide, by decide⟩
+example : canon 0 (denoteGraph (Graph.fromTerms 5 false [.expdecay expExE2])) =
+    canon 0 (STermList.denote 5 (expExE2.toTermListFinite (fun _ => false))) := by decide +kernel
+
+/-- all three kinds of terms in one graph -/
+example : canon 0 (denoteGraph (Graph.fromTerms 5 false [.onsite ex2Ot, .multi ex2Mt, .expdecay expExE2])) =
+    canon 0 (ex2Ot.denote ++ ex2Mt.connDenote ++ STermList.denote 5 (expExE2.toTermListFinite (fun _ => false))) := by
+  decide +kernel
 
 end examples
